@@ -50,6 +50,11 @@ def run(ctx, fb, cfg):
     import C20
 
     C20.check_library(C15._Prefixed(ctx, "C11"), lib)
+    # the projected copy of an unbound variable is a second allocation of the *same* variable: unification must
+    # identify variables by id (the same-variable arm of unify_rec), never by pointer (table shared with C01)
+    import C01
+
+    C01.check_unify_rec(ctx, lib, R + "K3K5.unify-rec")
     if cfg == "lib-default":
         import macrolib
 
@@ -113,19 +118,28 @@ def run(ctx, fb, cfg):
             ctx.violation(rule, "%s|calls-project-unguarded" % fn["npath"], site_of(fn), "Project::solve calls LTerm::project, which panics on a non-Projection term and itself replaces the Projection, without testing is_projection(): reaching the goal a second time panics")
         else:
             ctx.ok(rule, "%s|project-guard" % fn["npath"], site_of(fn), "guarded or project() cannot panic")
-        # what is projected
-        rule = R + "K3.what-is-projected"
-        eff, res = tables.flatten(t)
-        fors = [e for e in eff if e[0] == "for"]
-        good = len(fors) == 1
+        check_what_is_projected(ctx, lib, R + "K3.what-is-projected")
+
+
+def check_what_is_projected(ctx, lib, rule):
+    """`project |x| { body }`: every variable of the goal is replaced by walk*(state.smap, var) of the incoming
+    state - deep, so a list whose spine runs through bound variables is seen as the list it denotes - and the body is
+    solved with that same state (shared with C12: `for x in &l` inside a project iterates the projected value)."""
+    fn = streams.getfn(ctx, lib, rule, "<crate::operator::project::Project as crate::solver::Solve>::solve")
+    if not fn:
+        return
+    t = sym.Evaluator(lib).fn_term(fn)
+    eff, res = tables.flatten(t)
+    fors = [e for e in eff if e[0] == "for"]
+    good = len(fors) == 1
+    if good:
+        f = fors[0]
+        src, chain = streams.iter_chain(f[1])
+        good = unify(pat("@0.variables"), src) is not None and all(n_ in streams.ONE_TO_ONE for n_, _ in chain)
+        body = [e for e in tables.stmts_of(f[3]) if not tables.harmless_effect(e)]
+        good = good and len(body) == 1 and body[0][0] == "call" and suffix_match(body[0][1], "LTerm::project") and body[0][2][0] == ("item", f[1])
         if good:
-            f = fors[0]
-            src, chain = streams.iter_chain(f[1])
-            good = unify(pat("@0.variables"), src) is not None and all(n_ in streams.ONE_TO_ONE for n_, _ in chain)
-            body = [e for e in tables.stmts_of(f[3]) if not tables.harmless_effect(e)]
-            good = good and len(body) == 1 and body[0][0] == "call" and suffix_match(body[0][1], "LTerm::project") and body[0][2][0] == ("item", f[1])
-            if good:
-                cl = body[0][2][1]
-                good = cl[0] == "closure" and unify(pat("walk_star(@2.smap, arg0)"), tables.result(cl[3])) is not None
-            good = good and unify(pat("solve(@0.body, @1, @2)"), res) is not None
-        ctx.expect(good, rule, fn["npath"] + "|table", site_of(fn), "every variable of the goal must be projected with walk*(state.smap, var) of the incoming state and the body solved with that same state; found %s" % show(t, maxdepth=6)[:300])
+            cl = body[0][2][1]
+            good = cl[0] == "closure" and unify(pat("walk_star(@2.smap, arg0)"), tables.result(cl[3])) is not None
+        good = good and unify(pat("solve(@0.body, @1, @2)"), res) is not None
+    ctx.expect(good, rule, fn["npath"] + "|table", site_of(fn), "every variable of the goal must be projected with walk*(state.smap, var) of the incoming state and the body solved with that same state; found %s" % show(t, maxdepth=6)[:300])
